@@ -933,6 +933,10 @@ def decode(data, offset=0, size=None):
     if size < 2:
         raise DecodeError("less than two header bytes can't make a valid pdu")
 
+    # decode from the octets of this pdu only, a TLV or an aggregated pdu
+    # length field must not make the decoder read behind the pdu
+    data, offset = data[offset:offset+size], 0
+
     ptype = (struct.unpack_from('>H', data, offset)[0] >> 6) & 0b1111
     pdu_type = pdu_type_map.get(ptype, UnknownProtocolDataUnit)
     return pdu_type.decode(data, offset, size)
